@@ -466,20 +466,26 @@ def _ts_worker(args):
                                   {'kind': 'timestamp', 'zone': zone, 'epoch': sec, 'size': 8, 'flavour': 'parse',
                                    'ms': ms})
     # the forever sentinel, both widths
-    for size in (4, 8):
+    for size, msflag in ((4, False), (8, False), (4, True), (8, True)):
         acc.counters['transitions'] = acc.counters.get('transitions', 0) + 2
-        w = {'kind': 'timestamp', 'zone': zone, 'epoch': None, 'size': size, 'flavour': 'sentinel', 'ms': False}
+        tag = 'w%d%s' % (size, 'ms' if msflag else '')
+        w = {'kind': 'timestamp', 'zone': zone, 'epoch': None, 'size': size, 'flavour': 'sentinel', 'ms': msflag}
         try:
-            got = comp(None, False, size)
+            got = comp(None, msflag, size)
             if got != b'\xff' * size:
-                acc.violation('timestamp:sentinel_wrong:w%d' % size, 'None composes to %s' % got.hex(), w)
+                acc.violation('timestamp:sentinel_wrong:%s' % tag, 'None composes to %s' % got.hex(), w)
         except Exception as ex:  # noqa
-            acc.violation('timestamp:sentinel_raises:w%d:%s' % (size, type(ex).__name__),
+            acc.violation('timestamp:sentinel_raises:%s:%s' % (tag, type(ex).__name__),
                           'compose_timestamp(None, item_size=%d) raises %s' % (size, type(ex).__name__), w)
         p = ParserBinary(b'\xff' * size)
-        p.parse_timestamp('t', item_size=size)
-        if p['t'] is not None:
-            acc.violation('timestamp:sentinel_parse:w%d' % size, 'all-ones parses to %r' % (p['t'],), w)
+        try:
+            p.parse_timestamp('t', milliseconds=msflag, item_size=size)
+            back = p['t']
+        except Exception as ex:  # noqa
+            back = ex
+        if back is not None:
+            acc.violation('timestamp:sentinel_parse:%s' % tag, 'all-ones (the value None composes to) parses to %r'
+                          % (back,), w)
     acc.state(core.h64('tz', zone))
     acc.sample({'zone': zone, 'instants': len(instants(thorough, zone))}, 1)
     return acc.result()
